@@ -359,14 +359,7 @@ def clause_index_leaves_with_record(prog, rep, rule):
             return False
         if ("." + field) in [e for e in c.args[0]["p"][1:] if isinstance(e, str)]:
             return True
-        dep, _, _ = g.depends_on(c.args[0]["p"][0])
-        for l in dep:
-            for bb, kind, x in g.defs().get(l, []):
-                if kind == "stmt":
-                    for o in x.get("o", []):
-                        if "p" in o and ("." + field) in [e for e in o["p"][1:] if isinstance(e, str)]:
-                            return True
-        return False
+        return field in A.receiver_fields(g, c.args[0]["p"][0])
     nrm = 0
     for g in prog.nontest_fns(("mdk_memory_storage",)):
         prim = [c for c in g.live_calls() if c.name in ("pop", "pop_entry", "remove") and recv_is(g, c, "groups_cache")]
@@ -439,15 +432,8 @@ def clause_memory(prog, rep):
         for c in g.live_calls():
             if c.name != "pop" or not c.args or "p" not in c.args[0]:
                 continue
-            recv_dep, _, _ = g.depends_on(c.args[0]["p"][0])
-            recv_fields = set()
-            for l in recv_dep:
-                for bb, kind, x in g.defs().get(l, []):
-                    if kind == "stmt":
-                        for o in x.get("o", []):
-                            if "p" in o:
-                                recv_fields |= set(e for e in o["p"][1:] if isinstance(e, str))
-            if ".groups_by_nostr_id_cache" not in recv_fields and ".groups_by_nostr_id_cache" not in [e for e in c.args[0]["p"][1:] if isinstance(e, str)]:
+            recv_fields = A.receiver_fields(g, c.args[0]["p"][0])
+            if "groups_by_nostr_id_cache" not in recv_fields and ".groups_by_nostr_id_cache" not in [e for e in c.args[0]["p"][1:] if isinstance(e, str)]:
                 continue
             npop += 1
             og = A.origins(prog, g, c.args[1]["p"][0], scope=None, max_frames=0) if len(c.args) > 1 and "p" in c.args[1] else None
